@@ -29,7 +29,7 @@ const modPath = "github.com/goreleaser/nfpm/v2"
 const vrtPath = modPath + "/vrt"
 
 type stats struct {
-	Reads, Writes, MapOps, MapRanges, MapRangesSkipped, Clock, Host, Mutex, Atomic, Appends, Globals, SyncPoints, FSPoints int
+	Reads, Writes, MapOps, MapRanges, MapRangesSkipped, Clock, Host, Mutex, Atomic, Appends, Globals, SyncPoints, FSPoints, ChanOps int
 	CmdExport                                                                                                              bool
 	Unmodelled                                                                                                             []string
 }
@@ -337,7 +337,12 @@ func (w *weaver) expr(e ast.Expr) ast.Expr {
 			}
 		} else {
 			if x.Op == token.ARROW {
-				w.st.Unmodelled = append(w.st.Unmodelled, fmt.Sprintf("%s: channel receive", w.fset.Position(x.Pos())))
+				if _, commaOK := w.typeOf(x).(*types.Tuple); !commaOK && w.typeOf(x) != nil {
+					// <-ch -> vrt.ChanRecv(ch, site): a scheduling point that blocks under the scheduler
+					w.st.ChanOps++
+					return w.call("ChanRecv", w.expr(x.X), w.site(x))
+				}
+				w.st.Unmodelled = append(w.st.Unmodelled, fmt.Sprintf("%s: channel receive (v, ok form)", w.fset.Position(x.Pos())))
 			}
 			x.X = w.expr(x.X)
 		}
@@ -433,6 +438,11 @@ func (w *weaver) expr(e ast.Expr) ast.Expr {
 					x.Args[0] = w.call("MW", w.expr(x.Args[0]), s)
 					x.Args[1] = w.expr(x.Args[1])
 					return x
+				}
+			case "close":
+				if len(x.Args) == 1 {
+					w.st.ChanOps++
+					return w.call("ChanClose", w.expr(x.Args[0]), w.site(x))
 				}
 			case "new", "make":
 				for i := 1; i < len(x.Args); i++ {
@@ -723,8 +733,10 @@ func (w *weaver) stmt(s ast.Stmt) ast.Stmt {
 	case *ast.LabeledStmt:
 		x.Stmt = w.stmt(x.Stmt)
 	case *ast.SendStmt:
-		w.st.Unmodelled = append(w.st.Unmodelled, fmt.Sprintf("%s: channel send", w.fset.Position(x.Pos())))
-		x.Chan, x.Value = w.expr(x.Chan), w.expr(x.Value)
+		// ch <- v -> vrt.ChanSend(ch, v, site)
+		w.st.ChanOps++
+		site := w.site(x)
+		return &ast.ExprStmt{X: w.call("ChanSend", w.expr(x.Chan), w.expr(x.Value), site)}
 	}
 	return s
 }
